@@ -161,12 +161,8 @@ class RunTaskExecutable(Operation):
         handle.stdout.finish()
         handle.stderr.finish()
 
-        assert handle.returncode is not None
-        if handle.returncode != 0:
-            raise TaskNonZeroExit(
-                task_identifier=self._identifier, code=handle.returncode
-            )
-
+        # The arguments and options are recorded for every execution (also for
+        # one that failed), next to the logs of what the command printed.
         if self._serialize_args_options:
             if not self._args.empty():
                 self._args.serialize_json(self._output_path / EXP_ARGS_JSON_FILE_NAME)
@@ -174,6 +170,12 @@ class RunTaskExecutable(Operation):
                 self._options.serialize_json(
                     self._output_path / EXP_OPTION_JSON_FILE_NAME
                 )
+
+        assert handle.returncode is not None
+        if handle.returncode != 0:
+            raise TaskNonZeroExit(
+                task_identifier=self._identifier, code=handle.returncode
+            )
 
         if self._version_to_record is not None:
             ctx.version_index.insert_output_version(
